@@ -173,12 +173,15 @@ def run(ctx):
                 if ck is None:
                     continue
                 try:
+                    arg = lvs.name_arg(rng, name) if ni % 3 == 0 else (name if name else '/')
                     if ni % 16 == 0:
                         with monitors.Steps(limit=budget):
-                            got = impl_matches(ck, name if name else '/')
+                            got = impl_matches(ck, arg)
                         ctx.event('step-monitored')
                     else:
-                        got = impl_matches(ck, name if name else '/')
+                        got = impl_matches(ck, arg)
+                    if ni % 3 == 0:
+                        ctx.event('name-given-in-another-form')
                 except monitors.BudgetExceeded:
                     ctx.report('match-step-budget', f'match() exceeded {budget} interpreter events', wn)
                     continue
@@ -209,5 +212,6 @@ def run(ctx):
     ctx.need_class('template-schema')
     ctx.need_event('model-without-symbol-table')
     ctx.need_event('interleaved-and-abandoned-iteration')
+    ctx.need_event('name-given-in-another-form')
     ctx.assumptions = ['interior tree nodes reported as #_<id> are not matches for a rule and are filtered out',
                        'constraints refer only to patterns of the rule itself or of rules it references']
